@@ -105,7 +105,72 @@ theorem J5_body (hs : List Spec.Name) (hret : hs.contains "return".toList = fals
     | nil => rfl
     | cons x xs ih => simp [toJsSs, ih]
   exact ⟨jsStmts_emb hs hret ss hf ns h ind, fun rest => lexBody ind _ l1 rest,
-    fun rest F hF => jBlock_prBody _ l2 rest F (by rw [hlen]; exact hF)⟩
+    fun rest F hF => jBlock_prBody _ l2 rest F (by rw [ssW_simple _ (toJsSs_simple _ ss hf), hlen]; exact hF)⟩
+
+/-! ### J5t: structured statements (`if` / `repeat while` / `repeat with`, nested without bound) -/
+
+/-- **F160 on trees**: the test `_is_parenthesized` of the repaired `IfThenOperation` / `RepeatOperation.generate_js` (model:
+    `Lscr.isParenthesized`: the first parenthesis closes at the last character, string literals skipped) holds of the text of
+    the translation of `e` exactly when that translation is an infix operation — so a condition is always written in exactly one
+    pair of parentheses (before the repair the test was `startswith('(')`: `if (a + 1) & 2 then` gave `if (a + 1).concat(2) {`) -/
+theorem J_cond_parenthesized (c : JCtx) (e : Expr) (hf : JsOkE e = true) :
+    isParenthesized (txJ (toJsE c e)) = isBinJ (toJsE c e) := isParen_txJ _ (toJsE_lexok c e hf)
+
+/-- **J5t (text)**: one statement of the fragment `JsOkT` — a simple statement of `JsOkS`, `if c then … [else …]`, `repeat while c`,
+    `repeat with <local> = a [down] to b`, bodies again in the fragment — and every model node that is its image (`EmbSJ`: agent-link-flow's
+    nested tree `EmbT` with `with_result` tracked): the model's `generate_js` returns the lines `txT ind (toJsS s)`:
+    `if (c) {` … `} else {` … `}`, `while (c) {` … `}`, `for(v = a; v <= b; v++) {` … `}`, bodies one level deeper -/
+theorem J5_tree_text (hs : List Spec.Name) (hret : hs.contains "return".toList = false) (s : Stmt) (hf : JsOkT s = true) (n : Node)
+    (h : EmbSJ hs s n) (ind : Nat) :
+    js true false n ind = .ok (.s (txT ind (toJsS { handlers := hs, inTell := false } s))) :=
+  js_tree hs hret s hf n h ind
+
+/-- **J5t**: a structured statement list: the model's text, its lexing, and its reading as a block up to the closing brace
+    (fuel `ssW`: one unit per statement plus two per nested block) -/
+theorem J5_trees (hs : List Spec.Name) (hret : hs.contains "return".toList = false) (ss : List Stmt) (hf : JsOkTs ss = true) (ns : List Node)
+    (h : EmbSsJ hs ss ns) (ind : Nat) :
+    let js' := toJsSs { handlers := hs, inTell := false } ss
+    jsStmts true ns ind = .ok (txBody ind js') ∧
+    (∀ rest, LexesTo (txBody ind js') (prBody js') rest) ∧
+    (∀ rest F, ssW js' + 2 ≤ F → jBlock F (prBody js' ++ .p .rc :: rest) = some (js', rest)) := by
+  obtain ⟨l1, l2⟩ := toJsTs_ok hs ss hf
+  exact ⟨js_trees hs hret ss hf ns h ind, fun rest => lexBody ind _ l1 rest, fun rest F hF => jBlock_prBody _ l2 rest F hF⟩
+
+/-- non-vacuity: `if (a + 1) & 2 then / repeat with i = 1 to n / set x = x * i / end repeat / else / repeat while not (x < 3) / exit` -/
+def exTree : Stmt :=
+  .ifThen (.bin .concat (.bin .add (.var .param "a".toList) (.int 1)) (.int 2))
+    [ .repeatWith (.var .loc "i".toList) (.int 1) (.var .param "n".toList) false
+        [ .set (.var .loc "x".toList) (.bin .mul (.var .loc "x".toList) (.var .loc "i".toList)) ] ]
+    [ .repeatWhile (.un .not (.bin .lt (.var .loc "x".toList) (.int 3))) [ .exit ] ]
+
+def exTreeNode : Node :=
+  .stmt 9 (.ifThen 9 (.binary (S "concat") 8 (.binary (S "add") 4 (.leaf .paramName (.s (S "a")) 0) (.leaf .const (.s (natStr 1)) 2))
+      (.leaf .const (.s (natStr 2)) 6))
+    [ .stmt 40 (.repeat_ 40 44 (.binary (S "lte") 20 (.leaf .localVar (.s (S "i")) 16) (.leaf .paramName (.s (S "n")) 18)) 
+        [ .stmt 30 (.binary (S "assign") 30 (.leaf .localVar (.s (S "x")) 30)
+            (.binary (S "mul") 28 (.leaf .localVar (.s (S "x")) 24) (.leaf .localVar (.s (S "i")) 26))) ]
+        (S "for") (.leaf .const (.s (natStr 1)) 12) (.s (S "i")) (S "+") (.leaf .localVar (.s (S "i")) 14)) ]
+    [ .stmt 70 (.repeat_ 70 74 (.unary (S "not") 58 (.binary (S "lt") 56 (.leaf .localVar (.s (S "x")) 52) (.leaf .const (.s (natStr 3)) 54)))
+        [ .stmt 64 (.callFn (.s (S "exit")) 64 .none true false false .none) ] (S "while") .none (.s []) [] .none) ])
+
+example : JsOkT exTree = true := by decide +kernel
+
+example : EmbSJ [] exTree exTreeNode := by
+  refine ⟨9, 9, _, _, _, rfl, ⟨8, _, _, rfl, ⟨4, _, _, rfl, ⟨0, rfl⟩, ⟨2, rfl⟩⟩, ⟨6, rfl⟩⟩, ?_, ?_⟩
+  · exact ⟨_, [], rfl, ⟨40, 40, 44, 20, 16, 14, _, _, _, rfl, ⟨12, rfl⟩, ⟨18, rfl⟩,
+      ⟨_, [], rfl, ⟨30, 30, _, _, rfl, ⟨30, rfl⟩, ⟨28, _, _, rfl, ⟨24, rfl⟩, ⟨26, rfl⟩⟩⟩, rfl⟩⟩, rfl⟩
+  · exact ⟨_, [], rfl, ⟨70, 70, 74, _, _, rfl, ⟨58, _, rfl, ⟨56, _, _, rfl, ⟨52, rfl⟩, ⟨54, rfl⟩⟩⟩, ⟨_, [], rfl, ⟨64, 64, rfl⟩, rfl⟩⟩, rfl⟩
+
+/-- the lines J5t predicts for the example (the condition of the `if` gets its own parentheses since the repair of F160, an infix
+    condition keeps its single pair, the `for` header strips it) -/
+example : String.ofList (txT 1 (toJsS { handlers := [], inTell := false } exTree)) =
+    "    if ((a + 1).concat(2)) {\n        for(i = 1; i <= n; i++) {\n            x = (x * i);\n        }\n    } else {\n        while (!((x < 3))) {\n            exit();\n        }\n    }\n" := by
+  decide +kernel
+
+/-- … and the model's `generate_js` prints exactly these lines for the node (evaluation, independent of the theorem) -/
+example : (match js true false exTreeNode 1 with | .ok (.s t) => String.ofList t | _ => "") =
+    "    if ((a + 1).concat(2)) {\n        for(i = 1; i <= n; i++) {\n            x = (x * i);\n        }\n    } else {\n        while (!((x < 3))) {\n            exit();\n        }\n    }\n" := by
+  decide +kernel
 
 /-! ### J6: the script wrappers -/
 
